@@ -346,6 +346,40 @@ impl Ctx {
         }
     }
 
+    /// Merges a scratch context (used inside model-checker callbacks) into this one; violations are
+    /// taken over only when `keep` says so (the others are re-derived by replaying the counterexample).
+    pub fn absorb(&mut self, other: &mut Ctx, keep: impl Fn(&Violation) -> bool) {
+        self.evals += other.evals;
+        for h in other.answers.drain() {
+            if self.answers.len() < 200_000 {
+                self.answers.insert(h);
+            }
+        }
+        for (k, v) in std::mem::take(&mut other.counters) {
+            *self.counters.entry(k).or_insert(0) += v;
+        }
+        for (k, v) in std::mem::take(&mut other.maxima) {
+            self.maxi(&k, v);
+        }
+        let counts = std::mem::take(&mut other.viol_counts);
+        for v in std::mem::take(&mut other.viols) {
+            if keep(&v) {
+                let k = v.key();
+                let c = self.viol_counts.entry(k.clone()).or_insert(0);
+                if *c == 0 {
+                    *c = counts.get(&k).copied().unwrap_or(1);
+                    self.total_viols += *c;
+                    if self.viols.len() < 400 {
+                        self.viols.push(v);
+                    }
+                }
+            }
+        }
+        if self.samples.len() < 3 {
+            self.samples.append(&mut other.samples);
+        }
+    }
+
     pub fn stats_json(&self) -> Value {
         json!({
             "evals": self.evals, "cases": self.cases, "nontrivial_cases": self.nontrivial_cases,
